@@ -7,6 +7,8 @@ import ConfModel.Model.RawMerge
 import ConfModel.Model.RawSeq
 import ConfModel.Spec.RawSeq
 import ConfModel.Model.RawRetry
+import ConfModel.Model.RawStack
+import ConfModel.Spec.RawStack
 namespace ConfModel.Driver.C17
 open Lean ConfModel.Driver ConfModel.RawBody ConfModel.RawBodySpec
 
@@ -460,6 +462,68 @@ def handle : Handler := fun op inp impl =>
       model := Json.mkObj [("attempts", toJson (mWire.map hex)), ("getBody", mReq.getBody.isSome)],
       why := if holds then "" else
         s!"request #{firstBad oks + 1} of those the peer received for the raw request is not the prescribed one (method, target, listed headers, body)" }
+  | "stackseq" =>
+    let rows := parseOracle (field impl "oracle")
+    let compress := compressOf rows
+    let stepsJ := arr (field inp "steps")
+    let seen := arr (field impl "steps")
+    let pairs := fun (j : Json) => (parseHdrs j).map fun h => (h.name, h.values)
+    let stackNames := ["Vary", "Access-Control-Allow-Origin", "Access-Control-Allow-Credentials", "Access-Control-Expose-Headers"]
+    -- the exchanges as the model sees them
+    let exchOf : Json → ConfModel.RawStack.Exch := fun st =>
+      let origin := if str (field st "origin") == "" then none else some (str (field st "origin"))
+      if bool (field st "normal") then
+        ⟨origin, none, pairs (field st "respHdrs"), [.writeHeader 200, .write (unhex (str (field st "data")))], none⟩
+      else
+        let c := nat (field st "status")
+        let d : ConfModel.RawStack.RawDef := ⟨c, pairs (field st "headers"), pairs (field st "trailers"), parseBody (field st "body")⟩
+        let extra := field st "extra"
+        let rpc := str (field st "rpc")
+        let synth := !isNull extra && !isNull (field extra "error") && !(arr (field extra "headers")).isEmpty
+          && (rpc == "grpc" || rpc == "grpcweb") && str (field st "proc") == "Unary"
+        let handlerOps : List Op :=
+          if isNull extra then [] else if synth then [.setRaw ⟨200, []⟩] else [.writeHeader 200, .write [104], .flush]
+        -- net/http refuses the body of a status that cannot have one
+        ⟨origin, some d, if isNull extra then [] else pairs (field extra "headers"), handlerOps,
+          if RawSeqSpec.bodyless (RawSeq.finishStatus c) then some 0 else none⟩
+    let exchs := stepsJ.map exchOf
+    -- the model: the whole history through one process
+    let m := (ConfModel.RawStack.serveHist compress canonS {} exchs).2
+    let judge := (stepsJ.zip (seen.zip (exchs.zip m))).map fun p =>
+      let st := p.1
+      let o := p.2.1
+      let x := p.2.2.1
+      let ms := p.2.2.2
+      let err := str (field o "err")
+      let status := nat (field o "status")
+      let hdrs := pairs (field o "headers")
+      let trls := pairs (field o "trailers")
+      let base := pairs (field o "base")
+      let body := unhex (str (field o "body"))
+      match x.prescribed with
+      | some d =>
+        let holds := err == "" && ConfModel.RawStackSpec.rawHolds compress canonS d status hdrs base trls body
+        let names := ConfModel.RawStackSpec.namesOf canonS d.headers ++ stackNames
+        let agree := err == "" && ms.raw && status == ms.status && body == ms.body
+          && (names.all fun k => k == "Trailer" || k == "Date" || (ConfModel.RawStackSpec.suppressed status).contains k || ConfModel.RawMerge.get hdrs k == ConfModel.RawMerge.get ms.headers k)
+          && (RawSeqSpec.bodyless status || (ConfModel.RawStackSpec.namesOf canonS ms.trailers).all fun k =>
+                ConfModel.RawMerge.get trls k == ConfModel.RawMerge.listed (ConfModel.RawStackSpec.canonList canonS ms.trailers) k)
+        (agree, holds)
+      | none =>
+        let data := unhex (str (field st "data"))
+        let got := unhex (str (field o "data"))
+        let holds := err == "" && ConfModel.RawStackSpec.normalHolds canonS data x.handlerHdrs status hdrs base (bool (field o "decoded")) got
+        let names := ConfModel.RawStackSpec.namesOf canonS x.handlerHdrs ++ stackNames
+        let agree := err == "" && !ms.raw && status == ms.status && got == ms.body
+          && (names.all fun k => ConfModel.RawMerge.get hdrs k == ConfModel.RawMerge.get ms.headers k)
+        (agree, holds)
+    let holds := str (field impl "err") == "" && seen.length == stepsJ.length && (judge.map (·.2)).all id
+    { agree := seen.length == stepsJ.length && (judge.map (·.1)).all id, holds := holds,
+      nontrivial := stepsJ.length > 1,
+      cls := if stepsJ.any (fun st => bool (field st "normal")) then "raw-and-normal" else "raw-only",
+      model := toJson (m.map fun s => Json.mkObj [("raw", s.raw), ("status", s.status), ("body", hex s.body), ("headers", toJson s.headers)]),
+      why := if holds then "" else
+        s!"exchange #{firstBad (judge.map (·.2)) + 1} of the sequence does not show what its own response definition prescribes (status, given headers and trailers, no foreign header, body)" }
   | _ => bad ("C17: unknown op " ++ op)
 
 end ConfModel.Driver.C17
